@@ -3278,7 +3278,7 @@ class SchemaValidator:
                     )
                     self._generated_checkpoints.append(schema["checkpoints"][-1])
                     effective_checkpoint_ref = utils.as_namespaced_ref(
-                        schema_id, psuedo_checkpoint_alias, "checkpoint"
+                        schema_id, "{" + psuedo_checkpoint_alias + "}", "checkpoint"
                     )
                     # psuedo-checkpoints have no id, so they are registered under their alias
                     self._checkpoints[effective_checkpoint_ref] = schema["checkpoints"][-1]
@@ -3408,7 +3408,7 @@ class SchemaValidator:
                         )
                         self._generated_checkpoints.append(schema["checkpoints"][-1])
                         psuedo_checkpoint_ref = utils.as_namespaced_ref(
-                            schema_id, psuedo_checkpoint_alias, "checkpoint"
+                            schema_id, "{" + psuedo_checkpoint_alias + "}", "checkpoint"
                         )
                         self._action_checkpoint_refs[action_ref] = psuedo_checkpoint_ref
                         # psuedo-checkpoints have no id, so they are registered under their alias
